@@ -464,11 +464,17 @@ func isBasicNumberKind(kind reflect.Kind) bool {
 
 func convToBasicNumber(source interface{}, target reflect.Type) (interface{}, error) {
 	if v, ok := source.(*decimal.Big); ok {
-		f, _ := v.Float64()
+		f := decimalToFloat64(v)
 		switch target.Kind() {
 		case reflect.Int8:
+			if i, ok := v.Int64(); ok {
+				return int8(i), nil
+			}
 			return int8(f), nil
 		case reflect.Int16:
+			if i, ok := v.Int64(); ok {
+				return int16(i), nil
+			}
 			return int16(f), nil
 		case reflect.Int:
 			if i, ok := v.Int64(); ok {
@@ -476,6 +482,9 @@ func convToBasicNumber(source interface{}, target reflect.Type) (interface{}, er
 			}
 			return int(f), nil
 		case reflect.Int32:
+			if i, ok := v.Int64(); ok {
+				return int32(i), nil
+			}
 			return int32(f), nil
 		case reflect.Int64:
 			if i, ok := v.Int64(); ok {
@@ -483,6 +492,11 @@ func convToBasicNumber(source interface{}, target reflect.Type) (interface{}, er
 			}
 			return int64(f), nil
 		case reflect.Float32:
+			if v.IsFinite() {
+				// round once, to float32 (float32(f) would round twice)
+				f32, _ := strconv.ParseFloat(v.String(), 32)
+				return float32(f32), nil
+			}
 			return float32(f), nil
 		case reflect.Float64:
 			return float64(f), nil
